@@ -122,6 +122,8 @@ def run(tier):
                             + " model says: " + P.diagnose("C04_model", c))
     R.hist["model_mismatches"] = len(bad_model)
     R.hist["image_mismatches"] = len(bad_img)
+    from harness import probes
+    probes.stdlib_round_trip_probe(R, aspects=("json",))
     return R.finish(
         rule="random universes with serialization features (skip(serialization_if / serialization_default), "
              "none_as_undefined, Undefined-typed fields, serialized methods, with_fields_set classes with unset fields, "
